@@ -301,13 +301,13 @@ class DiscreteStridedIntervalSet(StridedInterval):
 
     def __neg__(self):
         """
-        Operation ~
+        Operation - (unary)
 
         :return: The negated value.
         """
         new_si_set = set()
         for si in self._si_set:
-            new_si_set.add(~si)
+            new_si_set.add(-si)
 
         r = DiscreteStridedIntervalSet(bits=self._bits, si_set=new_si_set)
         return r.normalize()
@@ -316,9 +316,14 @@ class DiscreteStridedIntervalSet(StridedInterval):
         """
         Operation ~
 
-        :return: The negated value.
+        :return: The inverted value.
         """
-        return self.__neg__()
+        new_si_set = set()
+        for si in self._si_set:
+            new_si_set.add(~si)
+
+        r = DiscreteStridedIntervalSet(bits=self._bits, si_set=new_si_set)
+        return r.normalize()
 
     @apply_on_each_si
     def __lshift__(self, o):
